@@ -15,6 +15,25 @@ keyword arguments or through one caller-owned mapping object re-used by every re
 compiled try / raise several times within one rendering with another class each time.  Every rendering is compared with
 the stateless Python-semantics reference (result, class identity of a propagated exception, ordered call log): whatever
 a compiled tag remembers from an earlier evaluation must not change a later one.
+
+Values handed to dtml-return (programs: also on the model; histories: more types): text, numbers, None, booleans (kept apart
+from 0 / 1: outcomes are compared with their exact types), byte strings (empty, ASCII, UTF-8, and -- returned by the main
+template only -- Latin-1 text / image data / every byte value, also inside containers), tuples, empty containers, floats,
+huge ints, objects, classes and uncalled callables; named by name, expr="name", expr="_['name']", expr="f()", a literal, or
+the name of a sub-template (its value handed on).  In the histories the object that comes back must be THE object the
+caller passed (identity), when dtml-return was given a name.
+
+Sweeps (oracle by construction, real code only, the same on every seed apart from the sampled part):
+  * sweep_returns: dtml-return of ~50 values of every type (incl. binary byte strings, bytearray, memoryview, str / bytes / int
+    subclasses, exception instances, classes, templates, functions) x 11 ways of naming the value x 25 block contexts
+    (every section of try / try-finally incl. a finally with a pending exception, raise bodies, if / elif / else / unless,
+    in / in-else / batched in, with / with mapping, let, sub-templates by name / called / called with keywords), nested to
+    depth 2 (all ordered pairs) and 3 (sample; thorough: all), data passed as keywords / mapping / client object / all
+    three: the call returns the identical object, raises nothing, and the logging calls rendered are exactly those Python
+    control flow runs (before the return; finally bodies inside-out; nothing else).
+  * sweep_scopes: the same contexts left by an exception (6 kinds, caught by a try around the nest) or by a return inside
+    a sub-template; afterwards probes of error_type / error_value / error_tb, let names, with attributes / keys, sequence
+    variables, sub-template keywords and an enclosing let must find everything unbound again.
 """
 import json
 
@@ -27,7 +46,16 @@ HANDLER_NAMES = ['ValueError', 'KeyError', 'LookupError', 'E1', 'E2', 'E3', 'EM'
 RAISE_BY_NAME = ['KeyError', 'ValueError', 'LookupError', 'ZeroDivisionError', 'NoSuchClass', 'TypeError', 'RuntimeError']
 RAISE_BY_EXPR = ['E1', 'E2', 'E3', 'EM', 'KeyError', 'ValueError']
 RET_VALUES = {'r_int': 5, 'r_str': {'s': 'txt'}, 'r_none': None, 'r_true': True,
-              'r_list': {'l': [1, {'s': 'a'}]}, 'r_dict': {'d': [['k', 1]]}, 'r_obj': {'o': 77, 'a': [['p', 1]]}}
+              'r_list': {'l': [1, {'s': 'a'}]}, 'r_dict': {'d': [['k', 1]]}, 'r_obj': {'o': 77, 'a': [['p', 1]]},
+              'r_bytes': {'b': list(b'plain')}, 'r_bytes_u8': {'b': list('h\u00e9\u20ac'.encode('utf-8'))},
+              'r_bytes0': {'b': []}, 'r_tuple': {'t': [1, {'s': 'a'}]}, 'r_nested': {'l': [{'b': list(b'x')}, {'t': []}]},
+              'r_empty': {'s': ''}, 'r_false': False, 'r_zero': 0, 'r_list0': {'l': []}}
+# binary data that is NOT text in the template encoding (Latin-1 text, an image header, bytes inside a container): only
+# ever named by a dtml-return of the MAIN template, so that it is never inserted into text (what dtml-var does with
+# undecodable bytes is C19's subject, not this property's)
+MAIN_RET_VALUES = {'r_latin1': {'b': list('caf\u00e9'.encode('latin-1'))},
+                   'r_bin': {'b': list(b'\x89PNG\r\n\x1a\n\x00\x00\x00\rIHDR\xff')},
+                   'r_bin_list': {'l': [{'b': [0xff, 0xfe, 0x00]}, {'b': []}]}}
 FAULT_CLASSES = ['ValueError', 'KeyError', 'E2', 'E3', 'EM', 'TypeError']
 
 
@@ -106,8 +134,39 @@ KEY_OF = {id(cls_of(_k)): _k for _k in HIST_POOL}
 
 
 class Ret(Exception):
-    def __init__(self, v):
+    def __init__(self, v, origin=None):
         self.v = v
+        # the namespace name whose (non-callable) value was handed to dtml-return as it is: the call must return THAT
+        # object (histories and sweep compare identities on the real code)
+        self.origin = origin
+
+
+def strict_eq(a, b):
+    """equality of two JSON-form outcomes that also tells True from 1 and False from 0 (a returned value keeps its type)"""
+    if type(a) is not type(b):
+        return False
+    if isinstance(a, dict):
+        return a.keys() == b.keys() and all(strict_eq(a[k], b[k]) for k in a)
+    if isinstance(a, (list, tuple)):
+        return len(a) == len(b) and all(strict_eq(x, y) for x, y in zip(a, b))
+    return a == b
+
+
+def handed_through(exp, got):
+    """A template whose rendering consists of ONE inserted byte string hands that piece back undecoded (render_blocks
+    returns rendered[0]); next to any other text it is decoded.  Which of the two happens is C19's subject: the reference
+    here always joins text.  Only for an expected TEXT result; a value given to dtml-return is never excused.
+    The same for the body of a dtml-raise that consists of one inserted byte string: the message is the rendered body, i.e.
+    that byte string (the exception class, and its identity in the histories, must still be the expected one)."""
+    try:
+        if 'raise' in exp:
+            e, g = exp['msg'], got['msg']
+            return (exp['raise'] == got['raise'] and exp.get('cls') == got.get('cls') and isinstance(e, str) and
+                    (g == e.encode('utf-8') or g == repr(e.encode('utf-8'))))
+        e, g = exp['ok'], got['ok']
+        return set(e) == {'s'} and set(g) == {'b'} and bytes(g['b']).decode('utf-8') == e['s']
+    except Exception:  # noqa
+        return False
 
 
 def norm_json(v):
@@ -116,6 +175,10 @@ def norm_json(v):
             return {'o': v['o']}
         if 'f' in v:
             return {'f': v['f']}
+        if 'x' in v:
+            return {'x': v['x'], 'm': ''}
+        if 'fl' in v:
+            return {'fl': repr(float(v['fl']))}
         if 'l' in v:
             return {'l': [norm_json(x) for x in v['l']]}
         if 't' in v:
@@ -130,6 +193,12 @@ def plain(v):
     if isinstance(v, dict):
         if 's' in v:
             return v['s']
+        if 'b' in v:
+            return bytes(v['b'])
+        if 'fl' in v:
+            return float(v['fl'])
+        if 'x' in v:
+            return cls_of(v['x'])
         if 'l' in v:
             return [plain(x) for x in v['l']]
         if 't' in v:
@@ -147,6 +216,10 @@ def jstr(v):
         inner = json.dumps(v)
         if '"o"' in inner or '"f"' in inner:
             return interp.MARK       # repr of objects inside containers: not compared
+    if isinstance(v, dict) and 'b' in v:
+        # a byte string inserted into text is text in the template's encoding (UTF-8 unless the constructor is told
+        # otherwise); the generator lets only UTF-8 byte strings get here
+        return bytes(v['b']).decode('utf-8')
     return str(plain(v))
 
 
@@ -200,9 +273,27 @@ class Ref:
             return e[1]
         if e[0] == 'name':
             return self.value(e[1], hst, call=False)
+        if e[0] == 'under':
+            return self.value(e[1], hst)
         if e[0] == 'call':
             return self.call(self.ns[e[1][1]])
         raise ValueError(e)
+
+    def origin(self, s):
+        """the name whose value a dtml-return hands over untouched (plain data looked up by name / expr="name" /
+        expr="_['name']"; also a callable or class NAMED by an expression, which is not called), else None"""
+        if s[0] == 'n':
+            n, called = s[1], True
+        elif s[1][0] in ('name', 'under'):
+            n, called = s[1][1], s[1][0] == 'under'
+        else:
+            return None
+        v = self.ns.get(n)
+        if called and isinstance(v, dict) and ('f' in v or 'T' in v):
+            return None
+        if isinstance(v, dict) and 'T' in v:
+            return None
+        return n if n in self.ns else None
 
     def blocks(self, bs, hst):
         return ''.join(self.blk(b, hst) for b in bs)
@@ -283,7 +374,7 @@ class Ref:
                 v = 'Invalid Error Value'
             raise c(v)
         if k == 'ret':
-            raise Ret(self.src(b[1], hst))
+            raise Ret(self.src(b[1], hst), self.origin(b[1]))
         if k == 'inC':
             # <dtml-in clsseq prefix=it>: the body once per class of the sequence, the class bound to it_item
             saved = self.ns
@@ -377,6 +468,31 @@ def gen_handlers(g, depth):
     return hs
 
 
+def gen_ret(g):
+    """dtml-return of a value of any type (text, numbers, None, booleans, byte strings incl. empty / UTF-8 / -- in the main
+    template -- binary ones, containers, objects, classes, callables), named in every way the tag accepts: by name (callables
+    are called, sub-templates rendered: their own result or returned value is handed on), expr="name" (nothing is called:
+    the callable / class itself is the value), expr="_['name']", expr="f()", a literal"""
+    r = g.r
+    in_sub = getattr(g, 'in_sub', False)
+    names = list(RET_VALUES) + ([] if in_sub else list(MAIN_RET_VALUES))
+    c = r.random()
+    if c < 0.55:
+        return ['ret', ['n', r.choice(names + ['f', 'f'])]]
+    if c < 0.63:
+        return ['ret', ['e', ['lit', r.choice([0, 9, -1, {'s': ''}, {'s': 'lit'}])]]]
+    if c < 0.75:
+        return ['ret', ['e', ['under', r.choice(names + ['f'])]]]
+    if c < 0.87:
+        # (a sub-template does not hand an uncalled callable to the main template: inserted there, its repr has an address;
+        # a class it hands over is inserted as str(class), which the Lean model does not print: histories only)
+        return ['ret', ['e', ['name', r.choice(names + ([] if in_sub else ['f', 'g']) +
+                                               (['cls1', 'cls3'] if not in_sub or getattr(g, 'hist', False) else []))]]]
+    if c < 0.93 or in_sub:
+        return ['ret', ['e', ['call', ['name', r.choice(['f', 'g', 'h'])]]]]
+    return ['ret', ['n', 'sub0']]
+
+
 def gen_block(g, depth):
     r = g.r
     kinds = ['mark', 'mark', 'var', 'lit', 'raise0', 'ret0', 'errprobe']
@@ -403,9 +519,7 @@ def gen_block(g, depth):
             return ['raise', r.choice(RAISE_BY_NAME), None, body]
         return ['raise', 'exc_cls', ['name', r.choice(['cls1', 'cls2', 'cls3', 'ValueError', 'LookupError'])], body]
     if k in ('ret0', 'ret'):
-        if r.random() < 0.8:
-            return ['ret', ['n', r.choice(list(RET_VALUES) + ['f'])]]
-        return ['ret', ['e', ['lit', r.choice([0, 9])]]]
+        return gen_ret(g)
     if k == 'try':
         hs = gen_handlers(g, depth)
         els = section(g, depth - 1, 1) if r.random() < 0.4 else None
@@ -525,6 +639,10 @@ def gen_case(r, depth):
           # names of built-in exceptions bound to OTHER classes: an expression naming them must see the namespace's value
           'ValueError': {'x': r.choice(['E3', 'KeyError']), 'm': ''}, 'LookupError': {'x': r.choice(['EM', 'E1']), 'm': ''}}
     ns.update(RET_VALUES)
+    ns.update(MAIN_RET_VALUES)
+    if r.random() < 0.3:
+        # a callable that answers a byte string (UTF-8: dtml-var may insert it)
+        ns['f'] = {'f': 1, 'r': r.choice([{'b': list(b'Fb')}, {'b': list('F\u00fc'.encode('utf-8'))}, {'b': []}])}
     main = gen_blocks(g, depth, 3)
     g.in_sub = True
     sub = gen_blocks(g, 1, 2)
@@ -567,6 +685,27 @@ def shape_counts(res, src):
         res.count('programs_probing_error_type_right_after_a_try')
 
 
+def count_returns(res, exp, case, prefix=''):
+    """evidence: how often the call's value is a value handed over by dtml-return, by type"""
+    if 'ok' not in exp:
+        return
+    v = exp['ok']
+    srcs = ' '.join(t['source'] for t in case['templates'])
+    if isinstance(v, dict) and set(v) == {'s'} and 'dtml-return' not in srcs:
+        return
+    kind = type(v).__name__ if not isinstance(v, dict) else sorted(v)[0]
+    if kind == 'm':
+        kind = 'class'
+    if kind == 'b':
+        try:
+            bytes(v['b']).decode('utf-8')
+            kind = 'b(utf-8)' if v['b'] else 'b(empty)'
+        except UnicodeDecodeError:
+            kind = 'b(binary)'
+    if not (isinstance(v, dict) and set(v) == {'s'}):
+        res.count(prefix + 'call_value_of_type=' + kind)
+
+
 def features(src):
     f = []
     for t in ('dtml-except', 'dtml-finally', 'dtml-else', 'dtml-raise', 'dtml-return'):
@@ -585,9 +724,13 @@ def check(res, items, have_driver):
         exp, exp_log = reference(c, ns, plan[0], plan[1])
         got = impl['result']
         got_log = [e[1] for e in impl['events'] if e[0] == 'call']
-        same = exp == got or ('raise' in exp and 'raise' in got and exp['raise'] == got['raise'] and
-                              exp['raise'] in interp.INTERNAL)
+        same = strict_eq(exp, got) or ('raise' in exp and 'raise' in got and exp['raise'] == got['raise'] and
+                                       exp['raise'] in interp.INTERNAL)
+        if not same and handed_through(exp, got):
+            same = True
+            res.count('text_result_or_message_is_one_undecoded_bytes_piece(C19)')
         src = c['templates'][0]['source']
+        count_returns(res, exp, c)
         res.nt((features(src), plan[0] != (), 'raise' in got, got.get('raise')))
         res.count('outcome=' + ('raise' if 'raise' in got else 'ok'))
         if plan[0] == ():
@@ -630,7 +773,17 @@ def gen_items(r, n):
 
 CLASS_SLOTS = ['cls1', 'cls2', 'cls3', 'ValueError', 'LookupError']
 OTHER_VALUES = [6, -1, {'s': 'other'}, {'s': ''}, None, False, True, {'l': [2]}, {'l': []}, {'d': [['z', 0]]},
-                {'o': 78, 'a': [['p', 2]]}, {'t': [1, {'s': 'b'}]}]
+                {'o': 78, 'a': [['p', 2]]}, {'t': [1, {'s': 'b'}]},
+                # (histories are not run on the model: also types it has not)
+                0, 1, 2 ** 70, {'fl': '1.5'}, {'fl': '0.0'}, {'fl': '-2.5e+300'}, {'fl': 'inf'}, {'t': []}, {'d': []},
+                {'b': list(b'other')}, {'b': []}, {'b': list('\u00fc\u4e2d'.encode('utf-8'))}, {'l': [{'b': [0xe9]}]},
+                {'s': 'caf\u00e9 \u20ac'}]
+# (no classes here: these values are looked up BY NAME, which calls callables; a class is returned uncalled through
+# expr="cls1", see gen_ret)
+# values of the names only the main template returns: binary data of every kind, and now and then something else
+OTHER_BIN_VALUES = [{'b': [0xe9]}, {'b': list(range(256))}, {'b': list('na\u00efve'.encode('latin-1'))},
+                    {'b': list('\u4e2d'.encode('utf-16'))}, {'b': [0]}, {'b': list(b'GIF89a\x01\x00\x01\x00\x80\xff')},
+                    {'t': [{'b': [0xff]}, 1]}, {'d': [['data', {'b': [0x80, 0x81]}]]}, {'b': list(b'ascii after all')}, None]
 
 
 def pick_class(r, pool=None):
@@ -673,9 +826,13 @@ def mutate_ns(r, ns):
             ns['clsseq'] = gen_clsseq(r)
         kinds.add('rebind')
     if how in ('values', 'mixed'):
-        for n in r.sample(sorted(RET_VALUES) + ['v1', 'v2', 'f', 'g', 't1', 'f0'], r.randint(1, 4)):
+        for n in r.sample(sorted(RET_VALUES) + sorted(MAIN_RET_VALUES) + ['v1', 'v2', 'f', 'g', 't1', 'f0'], r.randint(1, 5)):
             if n in ('f', 'g'):
-                ns[n] = {'f': ns[n]['f'], 'r': r.choice([{'s': 'F2'}, 4, None, {'s': ''}, {'l': [1]}])}
+                ns[n] = {'f': ns[n]['f'], 'r': r.choice([{'s': 'F2'}, 4, None, {'s': ''}, {'l': [1]}, {'b': list(b'Fb')},
+                                                         {'b': []}, {'b': list('F\u00fc'.encode('utf-8'))}, {'fl': '2.5'},
+                                                         False, {'t': [{'b': [120]}]}])}
+            elif n in MAIN_RET_VALUES:
+                ns[n] = r.choice(OTHER_BIN_VALUES)
             elif n in ('t1', 'f0'):
                 ns[n] = 1 - ns[n]
             elif n in ('v1', 'v2'):
@@ -699,6 +856,7 @@ def gen_history(r, depth):
     for n in CLASS_SLOTS:
         ns[n] = {'x': pick_class(r), 'm': ''}
     ns.update(RET_VALUES)
+    ns.update(MAIN_RET_VALUES)
     main = gen_blocks(g, depth, 3)
     g.in_sub = True
     sub = gen_blocks(g, 1, 2)
@@ -730,11 +888,36 @@ def gen_history(r, depth):
 
 
 def hist_to_py(world, v, templates):
-    if isinstance(v, dict) and 'x' in v:
-        return cls_of(v['x'])
-    if isinstance(v, dict) and 'l' in v and v['l'] and all(isinstance(x, dict) and 'x' in x for x in v['l']):
-        return [cls_of(x['x']) for x in v['l']]
+    if isinstance(v, dict):
+        if 'x' in v:
+            return cls_of(v['x'])
+        if 'fl' in v:
+            return float(v['fl'])
+        if 'f' in v and v['f'] < proggen.PROBE_BASE:
+            return proggen.Fn(world, v['f'], hist_to_py(world, v['r'], templates))
+        if 'l' in v:
+            return [hist_to_py(world, x, templates) for x in v['l']]
+        if 't' in v:
+            return tuple(hist_to_py(world, x, templates) for x in v['t'])
+        if 'd' in v:
+            return {k: hist_to_py(world, x, templates) for k, x in v['d']}
     return proggen.to_py(world, v, templates)
+
+
+def typed(o):
+    """the value a template call gave, in JSON form, with its exact type: floats, classes by identity (Name/Base), True
+    kept apart from 1 by strict_eq"""
+    if isinstance(o, float):
+        return {'fl': repr(o)}
+    if isinstance(o, type) and issubclass(o, BaseException):
+        return {'x': KEY_OF.get(id(o), o.__name__), 'm': ''}
+    if type(o) is list:
+        return {'l': [typed(x) for x in o]}
+    if type(o) is tuple:
+        return {'t': [typed(x) for x in o]}
+    if type(o) is dict:
+        return {'d': [[k, typed(x)] for k, x in o.items()]}
+    return proggen.from_py(o)
 
 
 def outcome_of_exception(e):
@@ -751,7 +934,7 @@ def run_history(h):
     out = []
     for st in h['steps']:
         for k, v in st['ns'].items():
-            if k not in prev or prev[k] != v:
+            if k not in prev or not strict_eq(prev[k], v):      # (0 -> False is a change)
                 data[k] = hist_to_py(world, v, templates)
         prev = st['ns']
         world.calls = 0
@@ -759,9 +942,11 @@ def run_history(h):
         world.faults = set(st['faults'])
         world.fault_cls = cls_of(st['fault_cls'])
         before = dict(data)
+        same_as = None
         try:
             o = templates[0](None, data) if h['via'] == 'mapping' else templates[0](**data)
-            res = {'ok': proggen.from_py(o)}
+            res = {'ok': typed(o)}
+            same_as = {k for k, v in before.items() if v is o}
         except Exception as e:  # noqa
             res = outcome_of_exception(e)
         problem = None
@@ -771,7 +956,7 @@ def run_history(h):
             for k in set(data) - set(before):
                 del data[k]
             data.update(before)
-        out.append((res, [e[1] for e in world.events if e[0] == 'call'], problem))
+        out.append((res, [e[1] for e in world.events if e[0] == 'call'], problem, same_as))
     return out
 
 
@@ -781,13 +966,15 @@ def reference_history(h):
     out = []
     for st in h['steps']:
         ref = Ref(st['ns'], subs, st['faults'], st['fault_cls'], trace)
+        origin = None
         try:
             res = {'ok': {'s': ref.blocks(subs[0], [])}}
         except Ret as r:
             res = {'ok': norm_json(r.v)}
+            origin = r.origin
         except Exception as e:  # noqa
             res = outcome_of_exception(e)
-        out.append((res, ref.log, ref.revisits))
+        out.append((res, ref.log, ref.revisits, origin))
     return out
 
 
@@ -806,7 +993,7 @@ def brief_steps(steps):
         if prev is None:
             data = {k: short(ns[k]) for k in CLASS_SLOTS + ['clsseq', 'v1', 'v2', 't1', 'f0', 'f', 'g'] + sorted(RET_VALUES)}
         else:
-            data = {k: short(v) for k, v in ns.items() if prev[k] != v}
+            data = {k: short(v) for k, v in ns.items() if not strict_eq(prev[k], v)}
         prev = ns
         out.append({'data' if len(out) == 0 else 'data_changed': data, 'faults': list(s['faults']),
                     'fault_cls': s['fault_cls']})
@@ -821,7 +1008,7 @@ def check_histories(res, hists):
         exp = reference_history(h)
         src = h['case']['templates'][0]['source']
         shape_counts(res, src)
-        for i, (st, (g_res, g_log, problem), (e_res, e_log, revisits)) in enumerate(zip(h['steps'], got, exp)):
+        for i, (st, (g_res, g_log, problem, same_as), (e_res, e_log, revisits, origin)) in enumerate(zip(h['steps'], got, exp)):
             res.evaluations += 1
             res.count('history_renderings')
             if i:
@@ -832,8 +1019,17 @@ def check_histories(res, hists):
                 res.count('history_' + v)
             res.nt(('hist', features(src), i > 0, tuple(st['changed']), st['faults'] != (), g_res.get('raise'),
                     tuple(sorted(set(revisits)))))
-            same = e_res == g_res or ('raise' in e_res and 'raise' in g_res and e_res['cls'] == g_res['cls'] and
-                                      e_res['raise'] in interp.INTERNAL)
+            same = strict_eq(e_res, g_res) or ('raise' in e_res and 'raise' in g_res and e_res['cls'] == g_res['cls'] and
+                                               e_res['raise'] in interp.INTERNAL)
+            if not same and handed_through(e_res, g_res):
+                same = True
+                res.count('text_result_or_message_is_one_undecoded_bytes_piece(C19)')
+            count_returns(res, e_res, h['case'], 'history_')
+            if same and origin is not None and problem is None:
+                res.count('history_returned_object_identity_checked')
+                if same_as is not None and origin not in same_as:
+                    problem = ('rendering #%d: dtml-return was given the value of %r as it is, and the call returned an EQUAL '
+                               'but DIFFERENT object (%r): the value was converted / copied on the way out' % (i, origin, g_res))
             if same and e_log == g_log and problem is None:
                 continue
             res.oracle_fail.append({
@@ -844,6 +1040,370 @@ def check_histories(res, hists):
                                     'calls %r; the engine gives %r with calls %r (classes are written Name/Base: distinct '
                                     'classes may share a name)' % (i, e_res, e_log, g_res, g_log))})
             break       # later renderings of a template that already went wrong add nothing
+
+
+# --------------------------------------------------------------------------- sweep: every value type x every block kind
+#
+# Oracle by construction (no evaluator, real code only): a template is assembled from WRAPPERS around one dtml-return.
+# In a wrapper {X} is where the next wrapper (or the dtml-return) goes, {P} is a logging call that is rendered before
+# {X} is reached, {F} one that must still be rendered after the return passed (finally), {N} one that must never be
+# rendered (after the return, in a branch / handler / else that Python would not run).  The call must return THE object
+# that was given to dtml-return (same identity, hence same type: nothing is rendered, decoded, joined or copied on the
+# way out), raise nothing, and the log must be: the {P}s outside-in, then the {F}s inside-out.
+
+SWEEP_WRAPPERS = [
+    ('top', 'A{P}{X}{N}B'),
+    ('try-body', '<dtml-try>{P}{X}{N}<dtml-except>{N}<dtml-else>{N}</dtml-try>{N}'),
+    ('try-body-other-handlers', '<dtml-try>{P}{X}{N}<dtml-except TypeError AttributeError>{N}<dtml-except NameError>{N}'
+                                '<dtml-else>{N}</dtml-try>{N}'),
+    ('handler', '<dtml-try>{P}<dtml-raise KeyError>k</dtml-raise>{N}<dtml-except ValueError>{N}<dtml-except LookupError>'
+                '{P}{X}{N}<dtml-except>{N}<dtml-else>{N}</dtml-try>{N}'),
+    ('bare-handler', 't<dtml-try><dtml-var no_such_name><dtml-except>{P}{X}{N}</dtml-try>{N}'),
+    ('else', '<dtml-try>{P}<dtml-except>{N}<dtml-else>e{P}{X}{N}</dtml-try>{N}'),
+    ('try-finally-body', '<dtml-try>{P}{X}{N}<dtml-finally>f{F}</dtml-try>{N}'),
+    ('finally', '<dtml-try>b{P}<dtml-finally>{P}{X}{N}</dtml-try>{N}'),
+    ('finally-with-pending-exception', '<dtml-try>{P}<dtml-raise ValueError>v</dtml-raise>{N}<dtml-finally>{P}{X}{N}</dtml-try>{N}'),
+    ('raise-body', '<dtml-raise KeyError>m{P}{X}{N}</dtml-raise>{N}'),
+    ('raise-expr-body', '<dtml-raise expr="Err">{P}{X}{N}</dtml-raise>{N}'),
+    ('if', '<dtml-if yes>{P}{X}{N}<dtml-else>{N}</dtml-if>{N}'),
+    ('elif', '<dtml-if no>{N}<dtml-elif yes>{P}{X}{N}<dtml-else>{N}</dtml-if>{N}'),
+    ('if-else', '<dtml-if no>{N}<dtml-else>{P}{X}{N}</dtml-if>{N}'),
+    ('unless', '<dtml-unless no>{P}{X}{N}</dtml-unless>{N}'),
+    ('in', '<dtml-in three>i{P}{X}{N}</dtml-in>{N}'),
+    ('in-else', '<dtml-in empty>{N}<dtml-else>{P}{X}{N}</dtml-in>{N}'),
+    ('in-batch', '<dtml-in three size=2 start=2 reverse>{P}{X}{N}</dtml-in>{N}'),
+    ('with', '<dtml-with holder>{P}{X}{N}</dtml-with>{N}'),
+    ('with-mapping', '<dtml-with amap mapping>{P}{X}{N}</dtml-with>{N}'),
+    ('let', '<dtml-let zz=yes yy="no">{P}{X}{N}</dtml-let>{N}'),
+    ('comment-before', '<dtml-comment><dtml-return no></dtml-comment>{P}{X}{N}'),
+    # the rest of the template lives in ANOTHER template object; its return ends that call, whose value is handed on
+    ('sub-template-by-name', '{P}<dtml-return {SUB}>{N}'),
+    ('sub-template-called', 's{P}<dtml-return expr="{SUB}(None, _)">{N}'),
+    ('sub-template-with-keywords', '{P}<dtml-return expr="{SUB}(None, _, extra=1)">{N}'),
+]
+
+# how the value is named in the tag; {V} is its name in the namespace.  'plain' ones look the name up the way dtml-var
+# does (a callable would be called), the others hand over whatever the expression yields
+SWEEP_SPELLINGS = [
+    ('name', '<dtml-return {V}>', 'plain'),
+    ('ssi-name', '<!--#return {V}-->', 'plain'),
+    ('underscore-item', '<dtml-return expr="_[\'{V}\']">', 'plain'),
+    ('expr', '<dtml-return expr="{V}">', 'any'),
+    ('quoted-expr', '<dtml-return "{V}">', 'any'),
+    ('getitem', '<dtml-return expr="_.getitem(\'{V}\', 0)">', 'any'),
+    ('attribute', '<dtml-return expr="box_{V}.value">', 'any'),
+    ('item', '<dtml-return expr="boxes[\'{V}\']">', 'any'),
+    ('call-result', '<dtml-return expr="get_{V}()">', 'any'),
+    ('name-of-callable', '<dtml-return get_{V}>', 'any'),
+    ('conditional-expr', '<dtml-return expr="{V} if yes else no">', 'any'),
+]
+
+
+def sweep_values():
+    """[(name, object, plain?)]: every type a caller may hand to dtml-return; plain = not callable"""
+    from DocumentTemplate import HTML
+    png = b'\x89PNG\r\n\x1a\n\x00\x00\x00\rIHDR\x00\xff'
+    plain = [0, 1, -1, 2 ** 80, True, False, None, '', 'text', 'caf\u00e9 \u20ac <&>', 1.5, 0.0, -0.0, float('inf'), 1j,
+             b'', b'plain ascii', 'caf\u00e9'.encode('latin-1'), 'h\u00e9\u20ac'.encode('utf-8'), png, bytes(range(256)),
+             '\u4e2d'.encode('utf-16'), b'<b>&amp;</b>', bytearray(b'ba\xff'), memoryview(b'mv\xfe'),
+             (), (1, b'x'), [], [b'x', 'y'], [[b'\xff']], {}, {'a': b'\xff'}, {b'k': 1}, set(), frozenset({b'e'}), range(3),
+             object(), proggen.Obj(5, {}), ValueError('an instance'), KeyError(b'\xe9'), Ellipsis, NotImplemented,
+             type('StrSub', (str,), {})('sub'), type('BytesSub', (bytes,), {})(b'sub\xe9'), type('IntSub', (int,), {})(3)]
+    called = [lambda: 'never called', int, bytes, KeyError, proggen.E3, HTML('<dtml-return no>never rendered'), [].append,
+              len]
+    out = [('v%d' % i, v, True) for i, v in enumerate(plain)]
+    out += [('c%d' % i, v, False) for i, v in enumerate(called)]
+    return out
+
+
+class _Box:
+    def __init__(self, value):
+        self.value = value
+
+
+class _Holder:
+    """a dtml-with target / a client object"""
+
+
+def sweep_build(wrappers, spelling, vname):
+    """-> (source of the main template, {name: source of a sub-template}, expected log)"""
+    counter = [0]
+    subs = {}
+
+    def build(ws):
+        if not ws:
+            return spelling.replace('{V}', vname), [], []
+        inner, pre_in, post_in = build(ws[1:])
+        text = ws[0]
+        pre, post = [], []
+        if '{SUB}' in text:
+            name = 'sub%d' % len(subs)
+            subs[name] = inner
+            text = text.replace('{SUB}', name)
+            inner = None
+        parts = []
+        i = 0
+        while i < len(text):
+            if text[i] == '{' and text[i + 2:i + 3] == '}' and text[i + 1] in 'PNFX':
+                t = text[i + 1]
+                if t == 'X':
+                    parts.append(inner)
+                else:
+                    counter[0] += 1
+                    mid = '%s%d' % (t.lower(), counter[0])
+                    (pre if t == 'P' else post if t == 'F' else []).append(mid)
+                    parts.append('<dtml-call expr="mark(\'%s\')">' % mid)
+                i += 3
+            else:
+                parts.append(text[i])
+                i += 1
+        return ''.join(parts), pre + pre_in, post_in + post
+
+    src, pre, post = build([w[1] for w in wrappers])
+    return src, subs, pre + post
+
+
+_COMPILED = {}
+
+
+def compiled(src):
+    """one template object per source text: the same compiled template is called again for every value / channel (as a
+    stored template is), so what a tag remembers from an earlier call is exercised too"""
+    from DocumentTemplate import HTML
+    t = _COMPILED.get(src)
+    if t is None:
+        if len(_COMPILED) > 4000:
+            _COMPILED.clear()
+        t = _COMPILED[src] = HTML(src)
+    return t
+
+
+def sweep_one(res, wrappers, spelling, value, channel):
+    obj = value[1]
+    vname = 'val'
+    src, subs, exp_log = sweep_build(wrappers, spelling[1], vname)
+    log = []
+    amap = {'in_the_mapping': 1}
+    holder = _Holder()
+    holder.on_the_holder = 1
+    ns = {'mark': log.append, 'yes': 1, 'no': 0, 'three': [10, 20, 30], 'empty': [], 'holder': holder, 'amap': amap,
+          'Err': proggen.E2, vname: obj, 'box_' + vname: _Box(obj), 'boxes': {vname: obj}, 'get_' + vname: lambda: obj}
+    for n, text in subs.items():
+        ns[n] = compiled(text)
+    label = {'wrappers': [w[0] for w in wrappers], 'return': spelling[0], 'value': '%s: %.80r' % (type(obj).__name__, obj),
+             'data_passed_as': channel, 'source': src, 'sub_templates': subs}
+    res.evaluations += 1
+    res.count('sweep_renderings')
+    res.count('sweep_depth_%d' % len(wrappers))
+    res.nt(('sweep', tuple(label['wrappers']), spelling[0], type(obj).__name__))
+    try:
+        t = compiled(src)
+        if channel == 'keywords':
+            got = t(**ns)
+        elif channel == 'mapping':
+            got = t(None, ns)
+        elif channel == 'client':
+            client = _Holder()
+            client.__dict__.update(ns)
+            got = t(client)
+        else:
+            client = _Holder()
+            client.__dict__.update({k: v for k, v in ns.items() if k != vname})
+            got = t(client, {'unrelated': 0}, **{vname: obj})
+    except Exception as e:  # noqa
+        res.oracle_fail.append({'case': label, 'what': 'the call must return the object given to dtml-return; it raised %s: %.200s '
+                                                       '(log %r)' % (type(e).__name__, e, log)})
+        return False
+    if got is not obj:
+        same = type(got) is type(obj) and _safe_eq(got, obj)
+        res.oracle_fail.append({'case': label, 'what': 'the call must return the object given to dtml-return (%s); it returned %s '
+                                                       '%.120r: %s' % (type(obj).__name__, type(got).__name__, got,
+                                                                       'an equal copy' if same else 'ANOTHER value')})
+        return False
+    if log != exp_log:
+        res.oracle_fail.append({'case': label, 'what': 'the right object came back, but the logging calls rendered were %r; '
+                                                       'Python control flow renders %r (p: before the return, f: finally bodies '
+                                                       'the return passes, n: never)' % (log, exp_log)})
+        return False
+    return True
+
+
+def _safe_eq(a, b):
+    try:
+        return bool(a == b)
+    except Exception:  # noqa
+        return False
+
+
+SWEEP_CHANNELS = ['keywords', 'mapping', 'client', 'client+mapping+keywords']
+
+
+def sweep_returns(res, tier, r, budget=None):
+    """depth 1: every wrapper x every value x every spelling; depth 2: every ordered pair of wrappers, values / spellings /
+    channels rotating (thorough: all of them); depth 3 (thorough: every triple; quick: a sample)"""
+    values = sweep_values()
+    W = SWEEP_WRAPPERS
+
+    def spellings_for(v):
+        return [s for s in SWEEP_SPELLINGS if s[2] == 'any' or v[2]]
+
+    def values_for(sp):
+        return values if sp[2] == 'any' else [v for v in values if v[2]]
+
+    n = 0
+    bad = 0
+    for w in W:
+        for sp in SWEEP_SPELLINGS:
+            for v in values_for(sp):
+                ok = sweep_one(res, [w], sp, v, SWEEP_CHANNELS[n % 4])
+                n += 1
+                bad += not ok
+                if bad > 40:
+                    return n
+    pairs = [(a, b) for a in W for b in W]
+    for a, b in pairs:
+        vs = values if tier == 'thorough' else r.sample(values, 6)
+        for v in vs:
+            sps = spellings_for(v)
+            for sp in (sps if tier == 'thorough' else [r.choice(sps)]):
+                ok = sweep_one(res, [a, b], sp, v, r.choice(SWEEP_CHANNELS))
+                n += 1
+                bad += not ok
+                if bad > 40:
+                    return n
+    triples = [(a, b, c) for a in W for b in W for c in W]
+    if tier != 'thorough':
+        triples = r.sample(triples, budget or 1500)
+    for tr in triples:
+        v = r.choice(values)
+        ok = sweep_one(res, list(tr), r.choice(spellings_for(v)), v, r.choice(SWEEP_CHANNELS))
+        n += 1
+        bad += not ok
+        if bad > 40:
+            return n
+    return n
+
+
+# --------------------------------------------------------------------------- sweep: what a block bound is gone afterwards
+#
+# The same wrappers, left ABNORMALLY: {X} is an exit that raises (dtml-raise by name / by expression, a missing name, a
+# failing callable) -- caught by a try around the whole nest -- or a dtml-return inside a sub-template whose value the
+# main template inserts.  Afterwards the main template goes on and PROBES the namespace: error_type / error_value /
+# error_tb (bound inside a handler only), the dtml-let names, the dtml-with attributes / keys, sequence-item, the
+# sub-template's keywords must all be gone, and an enclosing dtml-let must end with its own frame (a handler, else or
+# finally body that was left by an exception or a return has to be unwound like one left normally).  Expected text by
+# construction: handler output replaces the body's; the class that arrives is the exit's, or what a dtml-raise whose body
+# failed raises instead.
+
+SCOPE_CATCHES = {'try-body'}                     # its bare handler would catch the exit: only used with the return exit
+SCOPE_RAISES_INSTEAD = {'raise-body': 'KeyError', 'raise-expr-body': 'E2'}
+SCOPE_EXITS = [
+    ('raise-by-name', '<dtml-raise IndexError>boom</dtml-raise>', 'IndexError'),
+    ('raise-by-name-empty', '<dtml-raise ValueError></dtml-raise>', 'ValueError'),
+    ('raise-by-expr', '<dtml-raise expr="Err3">boom <dtml-var yes></dtml-raise>', 'E3'),
+    ('missing-name', '<dtml-var no_such_name>', 'KeyError'),
+    ('failing-call', '<dtml-call expr="fail()">', 'EM'),
+    ('failing-name', 'x<dtml-var fail>', 'EM'),
+    ('return', '<dtml-return val>', None),
+]
+SCOPE_PROBE_NAMES = [('error_type', 'NOERR'), ('error_value', 'NOERR'), ('error_tb', 'NOERR'), ('zz', 'NOZZ'), ('yy', 'NOYY'),
+                     ('sequence-item', 'NOSEQ'), ('sequence-index', 'NOSEQ'), ('on_the_holder', 'NOH'),
+                     ('in_the_mapping', 'NOM'), ('extra', 'NOX')]
+
+
+def scope_probes(sentinel):
+    src = ''.join('|<dtml-var %s missing="%s">' % nm for nm in SCOPE_PROBE_NAMES)
+    src += '|<dtml-var sentinel missing="NOSENT">|<dtml-if error_type>LEAK</dtml-if>'
+    exp = ''.join('|' + d for _, d in SCOPE_PROBE_NAMES) + '|' + sentinel + '|'
+    return src, exp
+
+
+def scope_one(res, wrappers, exit_, channel):
+    names = [w[0] for w in wrappers]
+    ename, esrc, ecls = exit_
+    body, subs, exp_log = sweep_build(wrappers, esrc, 'val')
+    for n in reversed(names):
+        if ecls is not None and n in SCOPE_RAISES_INSTEAD:
+            ecls = SCOPE_RAISES_INSTEAD[n]
+    p_in, e_in = scope_probes('outer')
+    p_out, e_out = scope_probes('NOSENT')
+    if exit_[2] is None:
+        subs = dict(subs, returning=body)
+        src = '<dtml-let sentinel="\'outer\'">[<dtml-var returning>%s]</dtml-let>%s' % (p_in, p_out)
+        expected = '[RV%s]%s' % (e_in, e_out)
+    else:
+        src = ('<dtml-let sentinel="\'outer\'">[<dtml-try>t%s<dtml-except>caught:<dtml-var error_type></dtml-try>%s]</dtml-let>%s'
+               % (body, p_in, p_out))
+        expected = '[caught:%s%s]%s' % (ecls, e_in, e_out)
+    log = []
+
+    def fail():
+        raise proggen.EM('fault')
+    holder = _Holder()
+    holder.on_the_holder = 1
+    ns = {'mark': log.append, 'yes': 1, 'no': 0, 'three': [10, 20, 30], 'empty': [], 'holder': holder,
+          'amap': {'in_the_mapping': 1}, 'Err': proggen.E2, 'Err3': proggen.E3, 'val': 'RV', 'fail': fail}
+    for n, text in subs.items():
+        ns[n] = compiled(text)
+    label = {'wrappers': names, 'left_by': ename, 'data_passed_as': channel, 'source': src, 'sub_templates': subs}
+    res.evaluations += 1
+    res.count('scope_sweep_renderings')
+    res.count('scope_sweep_left_by_' + ename)
+    res.nt(('scope', tuple(names), ename))
+    try:
+        t = compiled(src)
+        if channel == 'keywords':
+            got = t(**ns)
+        elif channel == 'mapping':
+            got = t(None, ns)
+        else:
+            client = _Holder()
+            client.__dict__.update(ns)
+            got = t(client)
+    except Exception as e:  # noqa
+        res.oracle_fail.append({'case': label, 'what': 'expected the text %r; the call raised %s: %.200s (log %r)'
+                                                       % (expected, type(e).__name__, e, log)})
+        return False
+    if got != expected or type(got) is not str:
+        res.oracle_fail.append({'case': label, 'what': 'after the blocks were left by %s the main template must render %r (every '
+                                                       'probe finds the name unbound again); it rendered %r' % (ename, expected, got)})
+        return False
+    if log != exp_log:
+        res.oracle_fail.append({'case': label, 'what': 'the text is right, but the logging calls rendered were %r; Python control '
+                                                       'flow renders %r (p: before the exit, f: finally bodies passed, n: never)'
+                                                       % (log, exp_log)})
+        return False
+    return True
+
+
+def sweep_scopes(res, tier, r):
+    """depth 1: every wrapper x every exit; depth 2: every ordered pair x (quick: two exits; thorough: every exit);
+    thorough: a sample of triples"""
+    W = SWEEP_WRAPPERS
+    chans = ['keywords', 'mapping', 'client']
+
+    def usable(ws, ex):
+        return ex[2] is None or not any(w[0] in SCOPE_CATCHES for w in ws)
+    nests = [[w] for w in W] + [[a, b] for a in W for b in W]
+    n = bad = 0
+    for ws in nests:
+        exits = SCOPE_EXITS if tier == 'thorough' or len(ws) == 1 else [SCOPE_EXITS[-1], r.choice(SCOPE_EXITS[:-1])]
+        for ex in exits:
+            if usable(ws, ex):
+                bad += not scope_one(res, ws, ex, chans[n % 3])
+                n += 1
+                if bad > 40:
+                    return n
+    if tier == 'thorough':
+        for _ in range(20000):
+            ws = [r.choice(W) for _ in range(3)]
+            ex = r.choice(SCOPE_EXITS)
+            if usable(ws, ex):
+                bad += not scope_one(res, ws, ex, r.choice(chans))
+                n += 1
+                if bad > 40:
+                    return n
+    return n
 
 
 def gen_histories(r, n):
@@ -867,6 +1427,14 @@ def run(res, tier, have_driver):
                  'messages / conditions, unchanged repeats, the same invocation failing again with a same-named class; data '
                  'passed as fresh keywords or as ONE caller mapping re-used (and required unchanged) across renderings; '
                  'dtml-in loops over classes reaching the same compiled try / raise once per class within a rendering')
+    res.rule += ('; RETURNED VALUES: every outcome compared with exact types (True is not 1); dtml-return of byte strings (empty / '
+                 'ASCII / UTF-8; Latin-1, image data, all byte values from the main template), bytes inside containers, tuples, '
+                 'falsy values of every type, floats / huge ints (histories), classes and uncalled callables, named by name / '
+                 'expr / _[name] / f() / literal / sub-template name; histories: the returned object is the caller\'s object '
+                 '(identity); SWEEP: ~50 values of every type x 11 spellings of dtml-return x 25 block contexts nested to depth '
+                 '3 x 4 ways of passing data: identical object back, nothing raised, exactly the logging calls Python control '
+                 'flow renders; SCOPE SWEEP: the same contexts left by 6 kinds of exception or a sub-template return, then '
+                 'probes of error_* / let / with / in / keyword names and an enclosing let: all unbound again')
     if RAISE_EXPR_RENAMES_CLASS:
         res.partial.append('left out (violation on the unchanged library, reported): <dtml-raise expr="c"> with c a class whose '
                            '__name__ is also a built-in / zExceptions exception name raises THAT class, not c '
@@ -874,6 +1442,8 @@ def run(res, tier, have_driver):
     items = gen_items(r, 900 if tier == 'quick' else 12000)
     runs = check(res, items, have_driver)
     check_histories(res, gen_histories(common.rng('C14-hist'), 2500 if tier == 'quick' else 20000))
+    sweep_returns(res, tier, common.rng('C14-sweep'))
+    sweep_scopes(res, tier, common.rng('C14-scope'))
     for i in (0, len(runs) // 2, len(runs) - 1):
         c, plan, impl, m = runs[i]
         res.sample({'source': c['templates'][0]['source'][:300], 'faults': list(plan[0]), 'result': impl['result']})
@@ -882,7 +1452,14 @@ def run(res, tier, have_driver):
                         'the class or of any class in its MRO',
                         'messages of exceptions CPython raises itself (TypeError, AttributeError, …) are not compared',
                         'histories are not run on the Lean model (its class table has one class per name); their '
-                        'expected values come from the reference evaluator alone, which keeps no state between renderings']
+                        'expected values come from the reference evaluator alone, which keeps no state between renderings',
+                        'a TEXT result that consists of one inserted byte string comes back as that byte string (render_blocks '
+                        'hands a single piece through; likewise the message of a dtml-raise whose body is one such piece): '
+                        'accepted here when it decodes (UTF-8) to the expected text and counted; '
+                        'C19 states what holds for byte strings in text.  A value given to dtml-return is never excused',
+                        'byte strings that are not UTF-8 are only returned by the main template, never inserted into text',
+                        'the sweeps have no evaluator: expected value = the very object passed in, expected log / text follow '
+                        'from how the template was assembled']
 
 
 def search_more(res, tier):
@@ -890,6 +1467,8 @@ def search_more(res, tier):
     res2 = common.Result('C14')
     check(res2, gen_items(r, 3000), False)
     check_histories(res2, gen_histories(common.rng('C14-hist-more'), 6000))
+    sweep_returns(res2, 'quick', common.rng('C14-sweep-more'), budget=6000)
+    sweep_scopes(res2, 'quick', common.rng('C14-scope-more'))
     return res2.oracle_fail
 
 
